@@ -85,12 +85,13 @@ META = {
         "a parameter annotated Any / un-annotated / float / int / str / bool / Union[int, float] / datetime / Decimal / object, in one "
         "process: each arrives as TypeAdapter says, type and sign of zero included, whatever was sent before. distinct_nontrivial = distinct "
         "(signature kinds, split, scheme, validate) classes."
+        " Name clash: the same task name registered on a shared broker and on the worker's broker with different signatures, either registration order; the local function runs with arguments bound and converted by its own signature."
     ),
     "assumptions": [
         "ORJSON / MsgPack / CBOR serializers cannot be imported in this image and are not covered",
         "values are drawn from a small JSON-representable alphabet; conversion itself is delegated to pydantic in both code and reference, the oracle is about binding",
     ],
-    "required_counters": ["sends", "converted_params", "unannotated_before_annotated", "roundtrips", "confusable_sends"],
+    "required_counters": ["sends", "converted_params", "unannotated_before_annotated", "roundtrips", "confusable_sends", "name_clash_sends"],
     "bounds": {"quick": {"max_params": 3, "kw_tail": "<=1 for <=2 params"}, "thorough": {"max_params": 4, "kw_tail": "<=2"}},
 }
 
@@ -512,16 +513,107 @@ def run_confusables(acc: Acc, only: Any = None) -> None:
             send((v1, v2), [v1, v2])
 
 
+CLASH_PAIRS = [("i", "u"), ("u", "i"), ("si", "is"), ("is", "uu"), ("iC", "i"), ("M", "u"), ("u", "M"), ("fd", "sP"), ("ii", "ii")]
+
+
+def run_name_clash(acc: Acc, only: Any = None) -> None:
+    """A task name registered both on a shared broker (library default) and on the worker's own broker
+    (application override) with a different signature: the worker executes the local function and must
+    bind and convert the arguments by the local function's signature."""
+    from taskiq.abc.broker import AsyncBroker
+    from taskiq.brokers.shared_broker import AsyncSharedBroker
+    from taskiq.receiver import Receiver
+    from mc.vloop import run_sync
+
+    saved_global = dict(AsyncBroker.global_task_registry)
+    try:
+        for local_pos, shared_pos in CLASH_PAIRS:
+            if only is not None and [local_pos, shared_pos] != only:
+                continue
+            for order in ("shared-first", "local-first"):
+                AsyncBroker.global_task_registry.clear()
+                rec_l: List[Any] = []
+                rec_s: List[Any] = []
+                fn_l, names = build_function(local_pos, "", rec_l)
+                fn_s, _ = build_function(shared_pos, "", rec_s)
+                wire: List[bytes] = []
+
+                class B(AsyncBroker):
+                    async def kick(self, message: Any) -> None:
+                        wire.append(message.message)
+
+                    async def listen(self):  # pragma: no cover
+                        yield b""
+
+                b = B()
+                sb = AsyncSharedBroker()
+                if order == "shared-first":
+                    sb.register_task(fn_s, task_name="c08:clash")
+                    task = b.register_task(fn_l, task_name="c08:clash")
+                else:
+                    task = b.register_task(fn_l, task_name="c08:clash")
+                    sb.register_task(fn_s, task_name="c08:clash")
+                for validate in (True, False):
+                    recv = Receiver(b, run_startup=False, validate_params=validate, max_async_tasks=1)
+                    for scheme in ("conv", "native"):
+                        args = [value_for(k, scheme, j) for j, k in enumerate(local_pos) if k not in "PCQ"]
+                        rec_l.clear()
+                        rec_s.clear()
+                        wire.clear()
+                        err = None
+                        try:
+                            run_sync(task.kiq(*args))
+                            run_sync(recv.callback(wire[0]))
+                        except BaseException as exc:
+                            err = exc
+                        acc.evaluations += 1
+                        acc.count("sends")
+                        acc.count("name_clash_sends")
+                        case = {"name_clash": [local_pos, shared_pos], "order": order, "scheme": scheme, "validate": validate}
+                        acc.outcome(("clash", local_pos, shared_pos, scheme, validate))
+                        if err is not None or len(rec_l) != 1 or rec_s:
+                            acc.violation("clash-wrong-function-or-failed", f"{case}: error={err!r}, local executions={len(rec_l)}, shared executions={len(rec_s)}", case)
+                            continue
+                        got = rec_l[0]
+                        k_args = [k for k in local_pos if k not in "PCQ"]
+                        for j, k in enumerate(local_pos):
+                            nm = names[j]
+                            if k == "C":
+                                if not isinstance(got[nm], Context):
+                                    acc.violation("clash-binding", f"{case}: local def gen_task({_sig_text(local_pos, '')}): Context parameter {nm} received {got[nm]!r}", case)
+                                continue
+                            if k == "P":
+                                want: Any = "DEP-VALUE"
+                            elif k == "Q":
+                                want = 41
+                            else:
+                                want = expected_value(k, args[k_args.index(k) if k_args.count(k) == 1 else j], validate)
+                            if got[nm] != want or type(got[nm]) is not type(want):
+                                acc.violation(
+                                    "clash-binding",
+                                    f"{case}: local def gen_task({_sig_text(local_pos, '')}) (a shared task of the same name is def gen_task({_sig_text(shared_pos, '')})) "
+                                    f"called with {[wire_form(a) for a in args]!r}: parameter {nm} received {got[nm]!r}, expected {want!r}",
+                                    case,
+                                )
+                                break
+    finally:
+        AsyncBroker.global_task_registry.clear()
+        AsyncBroker.global_task_registry.update(saved_global)
+
+
 def shards(tier: str, seed: int) -> List[Any]:
     sigs = signatures(tier)
     step = 12 if tier == "quick" else 25
-    return [{"tier": tier, "lo": i, "hi": min(i + step, len(sigs))} for i in range(0, len(sigs), step)] + [{"confusables": True}]
+    return [{"tier": tier, "lo": i, "hi": min(i + step, len(sigs))} for i in range(0, len(sigs), step)] + [{"confusables": True}, {"name_clash": True}]
 
 
 def run_shard(shard: Dict[str, Any]) -> Dict[str, Any]:
     acc = Acc()
     if shard.get("confusables"):
         run_confusables(acc)
+        return acc.as_dict()
+    if shard.get("name_clash"):
+        run_name_clash(acc)
         return acc.as_dict()
     sigs = signatures(shard["tier"])
     for sig in sigs[shard["lo"] : shard["hi"]]:
@@ -531,6 +623,11 @@ def run_shard(shard: Dict[str, Any]) -> Dict[str, Any]:
 
 def replay(obj: Dict[str, Any]) -> int:
     acc = Acc()
+    if "name_clash" in obj:
+        run_name_clash(acc, only=obj["name_clash"])
+        for k, v in acc.violations.items():
+            print("oracle:", k, "-", v["message"])
+        return 1 if acc.violations else 0
     if "confusable" in obj:
         run_confusables(acc)  # the whole family in the recorded order: the violation depends on what was sent before
         for k, v in acc.violations.items():
